@@ -38,6 +38,19 @@ translated statement by statement in continuation-passing style into a Lean term
     take, drop, zipIdx (swapped), zip, ++, length, id}; Option::{map, and_then, map_or, unwrap_or,
     is_some, is_none} ↦ Option.{map, bind, elim, getD, isSome, isNone} (decided statically when the
     constructor is known); private helper fns of the same file are inlined at the call site;
+  * NEW BUILDER STATE: `self.<accessor>()` of a body-less method (no parameters, returns a reference: the
+    implementor supplies it) or `self.<field>` of a struct field outside the mapping table, whose type
+    (through `&`, `&mut`, RefCell/Cell/Rc/Box and `type` aliases of the translated files) has a counterpart,
+    is state that outlives the call.  The function is translated with that state threaded (extra parameter
+    and result component; a local `let mut c = self.acc().borrow_mut()` is a live reference: mutations of
+    `c` are mutations of the slot), the translation is put into the generated file as a comment, the
+    generated name stays an alias, and the status is `DIFFERS (new state): <accessor/field : type>` — the
+    function WAS read, and cannot be equal to a model definition that has no slot for that state.
+    Callers inherit the state of their callees.  (Status only; never used for unparsed constructs.)
+  * also read: `matches!(e, pat [if g])`, tuple-valued `if`/`match` with `let (a, b) = …`, `is_const()`,
+    `unwrap()/expect()` (↦ getD default: `None` is outside the precondition), HashMap `clear`,
+    `contains_key`, `len`, `is_empty`; parameter / field types through `&`, `&mut`, `Vec<T>`, `[T]`,
+    `Option<T>` and type aliases;
   * ELABORATION GUARD: when the generated text differs from the file on disk it is elaborated once
     (`lake env lean` on a candidate copy); every generated definition with an error falls back to its
     alias with status `UNTRANSLATED … the translation does not elaborate` (repeated until clean), so an
@@ -148,6 +161,7 @@ class Val:
         self.inner = kw.get("inner")          # Option / List: Val template of the payload
         self.fed = kw.get("fed")              # hasher: list of Val fed so far
         self.fn = kw.get("fn")                # closure / local fn
+        self.alias_of = kw.get("alias_of")    # the state slot this value is a live reference to (RefMut of a field)
 
     def cond(self):
         return self.prop if self.prop is not None else self.lean
@@ -203,6 +217,18 @@ class Env:
         self.vars[name] = val
         return self
 
+    def rebind(self, name, val):
+        """a mutation of `name`: if it is a live reference to a state slot, the slot changes too"""
+        old = self.vars.get(name)
+        slot = getattr(old, "alias_of", None) if old is not None else None
+        if slot is None and name.startswith("@self."):
+            slot = None
+        if slot is not None:
+            val.alias_of = slot
+            self.vars[slot] = val
+        self.vars[name] = val
+        return self
+
 
 class Ctx:
     """per translated function"""
@@ -249,6 +275,7 @@ class FnDesc:
         self.uses_store = False
         self.uses_memo = False   # threads the scratch memo as a parameter
         self.memo_entry = False  # starts with an empty scratch memo
+        self.new_state = {}      # slot -> (name, rust type, Val template | None, description)
 
 
 GHOST_BINDERS = {
@@ -258,31 +285,132 @@ GHOST_BINDERS = {
 GHOST_ORDER = ["S", "NS", "varAt", "lvl", "H", "semHash", "negH", "key"]
 
 
-def param_template(name, ty):
-    """Rust parameter type -> (Val template(s), byref)"""
-    t = ty.replace(" ", "")
-    t = re.sub(r"'[a-z_]+", "", t).replace("<>", "")
+TYPE_ALIASES = {}     # `type NAME<…> = T;` declarations of all translated files (filled by generate())
+
+
+def scan_type_aliases(toks):
+    out = {}
+    for i in range(len(toks) - 2):
+        if toks[i] == ("id", "type") and toks[i + 1][0] == "id":
+            j = i + 2
+            depth = 0
+            while j < len(toks) and not (toks[j][1] == "=" and depth == 0):
+                depth += toks[j][1] == "<"
+                depth -= toks[j][1] == ">"
+                if toks[j][1] in (";", "{"):
+                    break
+                j += 1
+            if j < len(toks) and toks[j][1] == "=":
+                k = j + 1
+                while k < len(toks) and toks[k][1] != ";":
+                    k += 1
+                out[toks[i + 1][1]] = " ".join(x[1] for x in toks[j + 1:k])
+    return out
+
+
+def scan_struct_fields(toks):
+    """{field name: type text} of all `struct X { … }` of a file"""
+    out = {}
+    i = 0
+    while i < len(toks):
+        if toks[i] == ("id", "struct"):
+            j = i
+            while j < len(toks) and toks[j][1] not in ("{", ";", "("):
+                j += 1
+            if j < len(toks) and toks[j][1] == "{":
+                pz = R.Parser(toks, j + 1)
+                try:
+                    while not pz.at("}"):
+                        if pz.at("#"):
+                            pz.eat("#")
+                            pz.skip_balanced("[", "]")
+                            continue
+                        if pz.at("pub"):
+                            pz.eat()
+                            if pz.at("("):
+                                pz.skip_balanced("(", ")")
+                        name = pz.eat_id()
+                        pz.eat(":")
+                        out[name] = pz.parse_type()
+                        if pz.at(","):
+                            pz.eat(",")
+                except R.ParseError:
+                    pass
+                i = pz.i
+        i += 1
+    return out
+
+
+def norm_type(ty):
+    """strip spaces, lifetimes, references, interior-mutability wrappers; expand aliases.
+    -> (core type text, is `&mut`)"""
+    t = re.sub(r"'\s*[a-z_]+\b\s*,?", "", ty)      # lifetimes (the type text is token-separated by spaces)
+    t = t.replace(" ", "").replace("<>", "")
+    is_mut = False
+    for _ in range(12):
+        t0 = t
+        if t.startswith("&mut"):
+            t, is_mut = t[4:], True
+        elif t.startswith("&"):
+            t = t[1:]
+        elif t.startswith("mut") and not re.match(r"mut[A-Za-z_]", t):
+            t = t[3:]
+        m = re.match(r"^(?:std::cell::|cell::|std::rc::|std::boxed::)?(RefCell|Cell|Rc|Box|RefMut|Ref)<(.*)>$", t)
+        if m:
+            t = m.group(2)
+        m = re.match(r"^([A-Za-z_][A-Za-z0-9_]*)(<.*>)?$", t)
+        if m and m.group(1) in TYPE_ALIASES:
+            t = re.sub(r"'\s*[a-z_]+\b\s*,?", "", TYPE_ALIASES[m.group(1)]).replace(" ", "").replace("<>", "")
+        if t == t0:
+            break
+    return t, is_mut
+
+
+def type_template(name, ty):
+    """Rust type -> ([(lean name, Val template)], by-reference-and-mutable) or None when the type has no counterpart"""
+    t, is_mut = norm_type(ty)
+    t = re.sub(r"^(?:rustc_hash::|std::collections::)", "", t)
     if t == "BddPtr":
-        return [(name, mk("ptr", name))], False
-    if t in ("VarLabel", "usize", "u64"):
-        return [(name, mk("nat", name))], False
+        return [(name, mk("ptr", name))], is_mut
+    if t in ("VarLabel", "usize", "u64", "u32"):
+        return [(name, mk("nat", name))], is_mut
     if t == "bool":
-        return [(name, mk("bool", name))], False
-    if t == "&Cnf":
+        return [(name, mk("bool", name))], is_mut
+    if t == "Literal":
+        return [(name, mk("lit", name))], is_mut
+    if t == "Cnf":
         return [(name, mk("cnf", name)), ("numVars", mk("nat", "numVars"))], False
-    if t == "&mutSATSolver":
-        return [(name, mk("solver", name))], True
-    m = re.match(r"^&mutFxHashMap<(u128|BddPtr),BddPtr>$", t)
+    if t == "SATSolver":
+        return [(name, mk("solver", name))], is_mut
+    m = re.match(r"^(?:Fx)?HashMap<(u128|BddPtr),BddPtr>$", t)
     if m:
         kt = "S.κ" if m.group(1) == "u128" else "Ptr"
-        return [(name, Val(name, "cache", "Cache " + kt, inner=mk("ptr", "_")))], True
-    if t == "implIterator<Item=Literal>":
-        return [(name, Val(name, "list", "List Lit", inner=mk("lit", "_")))], False
+        return [(name, Val(name, "cache", "Cache " + kt, inner=mk("ptr", "_")))], is_mut
+    m = re.match(r"^(?:implIterator<Item=(\w+)>|Vec<(\w+)>|\[(\w+)\])$", t)
+    if m:
+        el = type_template("_", m.group(1) or m.group(2) or m.group(3))
+        if el and len(el[0]) == 1 and el[0][0][1].ty:
+            it = el[0][0][1]
+            return [(name, Val(name, "list", "List " + par_ty(it.ty), inner=it))], is_mut
+    m = re.match(r"^Option<(.*)>$", t)
+    if m:
+        el = type_template("_", m.group(1))
+        if el and len(el[0]) == 1 and el[0][0][1].ty:
+            it = el[0][0][1]
+            return [(name, Val(name, "opt", "Option " + par_ty(it.ty), inner=it))], is_mut
     if t == "BddNode":
-        return [(name, mk("node", name))], False
+        return [(name, mk("node", name))], is_mut
     if t in ("FiniteField<P>",):
-        return [(name, mk("hash", name))], False
-    raise Untranslatable("parameter type `%s`" % ty)
+        return [(name, mk("hash", name))], is_mut
+    return None
+
+
+def param_template(name, ty):
+    """Rust parameter type -> (Val template(s), byref)"""
+    r = type_template(name, ty)
+    if r is None:
+        raise Untranslatable("parameter type `%s`" % ty)
+    return r
 
 
 class Unit_:
@@ -293,6 +421,18 @@ class Unit_:
         self.src = open(os.path.join(REPO, path)).read()
         self.toks = R.lex(self.src)
         self.fds = {fd.rust: fd for fd in fds}
+        self.struct_fields = scan_struct_fields(self.toks)
+
+    def state_accessor(self, name):
+        """a method of the trait/impl WITHOUT a body (to be supplied by the implementor), no parameters,
+        returning a reference: an accessor of builder state.  -> return type text | None"""
+        try:
+            fs = R.find_fns(self.toks, name)
+        except R.ParseError:
+            return None
+        fs = [f for f in fs if f["body"] is None and all(p_[0] == "self" for p_ in f["params"]) and f["ret"]
+              and f["ret"].lstrip().startswith("&")]
+        return fs[0]["ret"] if len(fs) == 1 else None
 
     def helper(self, name):
         fs = [f for f in R.find_fns(self.toks, name) if f["body"] is not None]
@@ -322,6 +462,7 @@ def named(val, env, base, k_body):
         return k_body(val)
     name = env.ctx.fresh(base)
     nv = val.like(name)
+    nv.alias_of = val.alias_of
     return bind_let([name], val.lean, k_body(nv))
 
 
@@ -478,8 +619,22 @@ def tr_expr(e, env, k, hint=None):
     if t == "macro":
         if e[1] in ("debug_assert", "assert", "debug_assert_eq"):
             return k(UNIT, env)
-        if e[1] == "panic":
+        if e[1] in ("panic", "unreachable", "unimplemented", "todo"):
             return k(Val("default"), env)    # unreachable under the method's precondition
+        if e[1] == "matches":
+            pz = R.Parser(list(e[2]))
+            scrut = pz.parse_expr(nostruct=True)
+            pz.eat(",")
+            pat = pz.parse_pattern()
+            guard = None
+            if pz.at("if"):
+                pz.eat()
+                guard = pz.parse_expr()
+            if pz.at(","):
+                pz.eat(",")
+            if pz.peek()[0] != "eof":
+                raise Untranslatable("matches! with trailing tokens")
+            return tr_match(scrut, [(pat, guard, ("lit", "true")), (("wild",), None, ("lit", "false"))], env, k, hint)
         raise Untranslatable("macro %s!" % e[1])
     raise Untranslatable("expression form `%s`" % t)
 
@@ -547,6 +702,10 @@ def tr_field(e, env, k):
                 return k(Val("<table>", "table"), e2)
             if f in ("order",):
                 return k(Val("<order>", "order"), e2)
+            if "@self." + f in e2.vars:
+                return k(e2.vars["@self." + f], e2)          # (new) builder state
+            if f in e2.ctx.unit.struct_fields and f not in ("map",):
+                raise Untranslatable("builder field `%s` of type `%s`" % (f, e2.ctx.unit.struct_fields[f]))
             return k(Val("<self.%s>" % f, "opaque"), e2)
         if rv.kind in ("node", "noderef") and f in ("var", "low", "high"):
             if rv.kind == "noderef" and not rv.parts:
@@ -576,7 +735,7 @@ def tr_assign(e, env, k):
 
         def bound(v2):
             e3 = e2.copy()
-            e3.vars[name] = v2
+            e3.rebind(name, v2)
             return k(UNIT, e3)
         return named(nv, e2, name, bound)
     return tr_expr(rhs, env, go, name)
@@ -589,6 +748,8 @@ def merge_vals(vals, lean):
     if not vs:
         return Val(lean)
     v0 = vs[0]
+    if v0.kind == "tuple" and v0.parts and all(v.kind == "tuple" and v.parts and len(v.parts) == len(v0.parts) for v in vs):
+        return v0.like(lean)
     r = Val(lean, v0.kind, v0.ty, inner=v0.inner)
     return r
 
@@ -1218,7 +1379,14 @@ def call_translated(fd, vs, argexprs, env, k, hint):
         else:
             nn = ctx.fresh(tgt)
             names.append(nn)
-            e2.vars[tgt] = env.vars[tgt].like(nn)
+            e2.rebind(tgt, env.vars[tgt].like(nn))
+    for slot in fd.new_state:
+        if slot not in env.vars:
+            raise Untranslatable("builder state used where none is threaded")
+        n1 = ctx.fresh(fd.new_state[slot][0])
+        names.append(n1)
+        args = args + [par(env.vars[slot].lean)]
+        e2.rebind(slot, env.vars[slot].like(n1))
     if fd.uses_memo:
         if "@memo" not in env.vars:
             raise Untranslatable("scratch memo used where none is threaded")
@@ -1273,6 +1441,8 @@ def dispatch(rv, name, vs, argexprs, recvexpr, env, k, hint):
             return bind_let([r, t1], "NS.getOrInsert %s %s %s %s" % (env.vars["@t"].lean, par(v), par(lo), par(hi)), k(mk("ptr", r), e2))
         if name == "order" and n == 0:
             return k(Val("<order>", "order"), env)
+        if n == 0 and "@self." + name in env.vars:
+            return k(env.vars["@self." + name], env)       # accessor of (new) builder state
         if name in ctx.unit.fds and ctx.fd.selfkind == "trait":
             return call_translated(ctx.unit.fds[name], vs, argexprs, env, k, hint)
         return inline_helper(name, rv, vs, env, k)
@@ -1301,12 +1471,12 @@ def dispatch(rv, name, vs, argexprs, recvexpr, env, k, hint):
         if name == "pop" and n == 0:
             s1 = ctx.fresh(sname)
             e2 = env.copy()
-            e2.vars[sname] = rv.like(s1)
+            e2.rebind(sname, rv.like(s1))
             return bind_let([s1], "S.pop %s" % rv.lean, k(UNIT, e2))
         if name == "decide" and n == 1 and vs[0].kind == "lit":
             d, s1 = ctx.fresh(hint or "d"), ctx.fresh(sname)
             e2 = env.copy()
-            e2.vars[sname] = rv.like(s1)
+            e2.rebind(sname, rv.like(s1))
             return bind_let([d, s1], "S.decide %s %s" % (rv.lean, par(vs[0].lean)), k(Val(d, "dresval", "DecideResult"), e2))
     if kind == "array":
         if name == "map" and n == 1:
@@ -1368,11 +1538,22 @@ def dispatch(rv, name, vs, argexprs, recvexpr, env, k, hint):
         recv = strip_ref(recvexpr)
         if name == "get" and n == 1:
             return k(Val("(Cache.get %s %s)" % (par(rv.lean), par(vs[0].lean)), "opt", inner=mk("ptr", "_")), env)
+        if name == "contains_key" and n == 1:
+            return k(mk("bool", "(Cache.get %s %s).isSome" % (par(rv.lean), par(vs[0].lean))), env)
+        if name == "len" and n == 0:
+            return k(mk("nat", "(List.length %s)" % par(rv.lean)), env)
+        if name == "is_empty" and n == 0:
+            return k(mk("bool", "(List.isEmpty %s)" % par(rv.lean)), env)
+        if name == "clear" and n == 0 and recv[0] == "path" and len(recv[1]) == 1 and recv[1][0] in env.vars:
+            e2 = env.copy()
+            nv = rv.like("[]")
+            e2.rebind(recv[1][0], nv)
+            return k(UNIT, e2)
         if name == "insert" and n == 2 and recv[0] == "path" and len(recv[1]) == 1:
             cname = recv[1][0]
             c1 = ctx.fresh(cname)
             e2 = env.copy()
-            e2.vars[cname] = rv.like(c1)
+            e2.rebind(cname, rv.like(c1))
             return bind_let([c1], "(%s, %s) :: %s" % (vs[0].lean, vs[1].lean, rv.lean), k(UNIT, e2))
     if kind == "ptr":
         simple = {"is_false": "isFalse", "is_true": "isTrue", "is_neg": "isNeg"}
@@ -1415,6 +1596,9 @@ def dispatch(rv, name, vs, argexprs, recvexpr, env, k, hint):
             return k(Val("none", "opt", opt=("none",)), env)     # nobody in the file writes the memo
         if name == "clear_scratch" and n == 0:
             return k(UNIT, env)
+        if name == "is_const" and n == 0:
+            x = par(rv.lean)
+            return k(mk("bool", "(%s.isTrue || %s.isFalse)" % (x, x), prop="(%s.isTrue ∨ %s.isFalse)" % (x, x)), env)
         if name == "var_safe" and n == 0:
             return k(Val("(TieDnnfAux.varSafe %s)" % par(rv.lean), "opt", inner=mk("nat", "_")), env)
     if kind == "lit":
@@ -1498,6 +1682,10 @@ def dispatch(rv, name, vs, argexprs, recvexpr, env, k, hint):
             if static:
                 return k(vs[0] if static[0] == "none" else static[1], env)
             return k(vs[0].like("(Option.getD %s %s)" % (par(rv.lean), par(vs[0].lean))), env)
+        if name in ("unwrap", "expect") and payload is not None:
+            if static and static[0] == "some":
+                return k(static[1], env)
+            return k(payload.like("(Option.getD %s default)" % par(rv.lean)), env)   # `None` panics: outside the precondition
         if name in ("is_some", "is_none") and n == 0:
             if static:
                 return k(mk("bool", "true" if (static[0] == "some") == (name == "is_some") else "false"), env)
@@ -1537,6 +1725,16 @@ def translate_fn(unit, fd):
         ctx.used.add("self_")
         env.vars["self"] = mk("ptr", "self_")
         binders.append("(self_ : Ptr)")
+    slot_names = []
+    for slot, (nm, rt, templ, desc) in fd.new_state.items():
+        if templ is None:
+            raise Untranslatable("builder state %s of type `%s` has no counterpart among the model's types" % (desc, rt))
+        ctx.used.add(nm)
+        v_ = templ.like(nm)
+        v_.alias_of = slot
+        env.vars[slot] = v_
+        binders.append("(%s : %s)" % (nm, templ.ty))
+        slot_names.append(slot)
     if fd.uses_memo:
         ctx.used.add("memo")
         env.vars["@memo"] = Val("memo", "memo", "ScratchMemo")
@@ -1547,13 +1745,15 @@ def translate_fn(unit, fd):
         ctx.used.add("t")
         env.vars["@t"] = Val("t", "store", fd.store_ty)
         binders.append("(t : %s)" % fd.store_ty)
-    ret_ty = [fd.ret[1]] + [env.vars[n].ty for n in byref_names] + (["ScratchMemo"] if fd.uses_memo else []) + \
+    ret_ty = [fd.ret[1]] + [env.vars[n].ty for n in byref_names] + [env.vars[n].ty for n in slot_names] + \
+        (["ScratchMemo"] if fd.uses_memo else []) + \
         ([fd.store_ty] if fd.uses_store else [])
 
     def ret_k(v, e2):
         if v.kind is not None and v.kind != fd.ret[0] and not (fd.ret[0] == "ptr" and v.kind == "noderef"):
             raise Untranslatable("function result is a %s" % v.kind)
-        comps = [v.lean] + [e2.vars[n].lean for n in byref_names] + ([e2.vars["@memo"].lean] if fd.uses_memo else []) + \
+        comps = [v.lean] + [e2.vars[n].lean for n in byref_names] + [e2.vars[n].lean for n in slot_names] + \
+            ([e2.vars["@memo"].lean] if fd.uses_memo else []) + \
             ([e2.vars["@t"].lean] if fd.uses_store else [])
         return tuple_text(comps)
     ctx.ret_k = ret_k
@@ -1585,7 +1785,7 @@ def translate_fn(unit, fd):
         note = ("-- the recursion of the source is NOT on `low_raw()/high_raw()` of the matched pointer (as the model's is):\n"
                 "-- emitted as an opaque `partial def`, so the tie theorem fails\n")
     text = "%s%s %s«GB»%s %s : %s :=\n%s\n" % (note, kw, fd.lean, fuel_binder, " ".join(binders), " × ".join(ret_ty), ind(body))
-    return text, ctx.ghosts, list(ctx.aux), ctx.partial
+    return text, ctx.ghosts, list(ctx.aux), ctx.partial, [v_[3] + " : " + v_[1] for v_ in fd.new_state.values()]
 
 
 def ghost_strings(ghosts):
@@ -1621,6 +1821,44 @@ def prepare(unit):
             errors[fd.rust] = str(e)
             fd.parsed = None
             fd.params = None
+    # NEW BUILDER STATE: `self.<accessor>()` of a body-less accessor returning a reference, or `self.<field>` of a
+    # struct field that the mapping table does not know, whose type has a counterpart (a cache, a pointer, a list …):
+    # state that outlives the call and that the model has no slot for.  It is threaded (parameter + result component).
+    KNOWN_FIELDS = {"compute_table", "order", "map"}
+
+    def new_state_of(txt, depth=0):
+        slots = {}
+        for m in re.finditer(r"self \. ([a-z_][a-z0-9_]*)( \()?", txt):
+            nm, is_call = m.group(1), m.group(2) is not None
+            if is_call:
+                rt = unit.state_accessor(nm) if nm not in KNOWN_FIELDS else None
+                if rt is not None:
+                    tt = type_template(nm, rt)
+                    slots["@self." + nm] = (nm, rt, tt[0][0][1] if tt and len(tt[0]) == 1 else None, "accessor `%s()`" % nm)
+                elif nm not in unit.fds and depth < 3:
+                    try:
+                        slots.update(new_state_of(body_text(unit, nm), depth + 1))   # inlined helpers
+                    except Exception:
+                        pass
+            elif nm not in KNOWN_FIELDS and nm in unit.struct_fields:
+                tt = type_template(nm, unit.struct_fields[nm])
+                if tt and len(tt[0]) == 1:
+                    slots["@self." + nm] = (nm, unit.struct_fields[nm], tt[0][0][1], "field `%s`" % nm)
+        return slots
+    for fd in unit.fds.values():
+        fd.new_state = new_state_of(fd.parsed["body_text"]) if fd.parsed is not None else {}
+    changed = True
+    while changed:
+        changed = False
+        for fd in unit.fds.values():
+            if fd.parsed is None:
+                continue
+            for c in set(re.findall(r"self \. ([a-z_]+) \(", fd.parsed["body_text"])):
+                if c in unit.fds and c != fd.rust:
+                    for k_, v_ in unit.fds[c].new_state.items():
+                        if k_ not in fd.new_state:
+                            fd.new_state[k_] = v_
+                            changed = True
     # the scratch memo: modelled explicitly (an association list keyed by the regular pointer to the node,
     # threaded like the store) as soon as some function of the unit WRITES it
     unit.memo_mode = any(fd.parsed is not None and "set_scratch" in fd.parsed["body_text"] for fd in unit.fds.values())
@@ -1729,6 +1967,12 @@ def generate(bad):
     -> (text, status, [(status key, first line, last line)] of the translated blocks)"""
     status = {}
     marks = []   # (key, index into parts)
+    TYPE_ALIASES.clear()
+    for path, _ in descriptors():
+        try:
+            TYPE_ALIASES.update(scan_type_aliases(R.lex(open(os.path.join(REPO, path)).read())))
+        except Exception:
+            pass
     parts = ["import RsddModel.Model.TopDown\nimport RsddModel.Lemmas.TieDnnfAux\n"
              "/-!\n# Generated by tools/gen_dnnf.py from the Rust source — do not edit\n\n"
              "The decision-DNNF builder (`src/builder/decision_nnf/{builder,standard,semantic}.rs`), function by\n"
@@ -1761,8 +2005,8 @@ def generate(bad):
                 results[fd.rust] = ("err", errors[fd.rust])
                 continue
             try:
-                text, ghosts, auxnames, is_partial = translate_fn(unit, fd)
-                results[fd.rust] = ("ok", text, ghosts, auxnames, is_partial)
+                text, ghosts, auxnames, is_partial, newstate = translate_fn(unit, fd)
+                results[fd.rust] = ("ok", text, ghosts, auxnames, is_partial, newstate)
             except (Untranslatable, R.ParseError) as e:
                 results[fd.rust] = ("err", str(e))
             except Exception as e:  # never crash
@@ -1801,6 +2045,18 @@ def generate(bad):
                 text = text.replace("«GB»", gb).replace("«GA»", ga)
                 text = re.sub(r"«GA:([a-z_]+)»", lambda m: ghost_strings(ghosts_of[m.group(1)])[1], text)
                 text = re.sub(r"«GAL:([A-Za-z_0-9]+)»", lambda m: ghost_strings(aux_ghosts[m.group(1)])[1], text)
+                if res[5]:
+                    # the whole body was read; it takes / returns builder state the model has no slot for
+                    why = "; ".join(res[5])
+                    parts.append("-- DIFFERS (new state) `%s`: the source was read completely and now takes / returns / keeps builder state\n"
+                                 "-- that the hand-written model has no counterpart for (%s).  It cannot be equal to the model definition;\n"
+                                 "-- the generated name stays an alias (the build stays green), the status line reports DIFFERS.\n"
+                                 "-- What the source says now (state threaded as extra parameter and result component):\n/-\n%s-/\n"
+                                 % (fd.rust, why, text.replace("-/", "- /")))
+                    parts.extend(x + "\n" for x in fd.aux_fallback.values())
+                    parts.append(fd.fallback + "\n")
+                    status[key(fd)] = "DIFFERS (new state): " + why
+                    continue
                 for an, at in fd.aux_fallback.items():
                     if an not in [x for x, _ in res[3]]:
                         parts.append("-- (no loop in the source of `%s`: `%s` is an alias of the model's)\n%s\n" % (fd.rust, an, at))
